@@ -424,6 +424,29 @@ func MapsB() map[string]interface{} {
 	return d
 }
 
+// Deep nests lists under selectors of 3 to 8 segments (quantified collections of every path length).
+func Deep() map[string]interface{} {
+	el := func(x, y int) map[string]interface{} { return map[string]interface{}{"x": x, "y": y} }
+	l := func() []interface{} { return []interface{}{el(1, 1), el(1, 3), el(2, 2), el(3, 2), el(1, 9)} }
+	lvl := map[string]interface{}{"g": l(), "gm": map[string]interface{}{"1": el(3, 1), "2": el(1, 1)}}
+	f := map[string]interface{}{"f": map[string]interface{}{"p": el(1, 1), "q": el(2, 9), "g": lvl["g"]}, "fl": l()}
+	e := map[string]interface{}{"e": l(), "ee": f}
+	d := map[string]interface{}{"d": map[string]interface{}{"e": l(), "f": f["f"], "ee": e}}
+	return map[string]interface{}{"a": map[string]interface{}{"b": map[string]interface{}{"c": l(), "cc": d, "c2": map[string]interface{}{"d": d["d"]}}},
+		"s": "scalar", "m": map[string]interface{}{"s": "x"}, "m3": map[string]interface{}{"a": 1, "b": 2, "c": 3},
+		"l": []interface{}{[]interface{}{1, 2}, []interface{}{3}}, "st": struct{ A int }{1}, "u_str": "unk", "X": 1, "Y": "b", "Tags": []string{"t1", "t2"}}
+}
+
+// Deep2 has the shape of Deep with other contents.
+func Deep2() map[string]interface{} {
+	d := Deep()
+	d["a"].(map[string]interface{})["b"].(map[string]interface{})["c"] = []interface{}{map[string]interface{}{"x": 1, "y": 2}, map[string]interface{}{"x": 7, "y": 7}}
+	d["s"] = "other"
+	d["m3"] = map[string]interface{}{"z": 1}
+	d["l"] = []interface{}{[]interface{}{5}}
+	return d
+}
+
 type Doc struct {
 	Name string
 	V    interface{}
